@@ -102,3 +102,185 @@ Proof.
     cbn. rewrite (alias_step_effect package e a2), EF. cbn.
     rewrite alias_add_idem; [reflexivity|]. eapply get_aliases_keeps; [|exact G]. apply alias_add_has.
 Qed.
+
+(* ======================================================================================================== *)
+(* C06: one parameter                                                                                         *)
+(* ======================================================================================================== *)
+(* the literal default values of the statement: int, float, str, bool, None, signed numbers *)
+Definition plain_literal (e : expr) : option pyval :=
+  match e with
+  | EInt z => Some (Some (DInt z))
+  | EFloat r => Some (Some (DFloat r))
+  | EStr s => Some (Some (DStr (quote_str s)))
+  | EName n _ _ => if str_eqb n (K"None") then Some None
+                   else if str_eqb n (K"True") then Some (Some (DBool true))
+                   else if str_eqb n (K"False") then Some (Some (DBool false)) else None
+  | _ => None
+  end.
+Definition signed_literal (e : expr) : option pyval :=
+  match e with
+  | EUnary op (EInt z) =>
+    if (0 <=? z)%Z then (if str_eqb op (K"-") then Some (Some (DInt (- z))) else if str_eqb op (K"+") then Some (Some (DInt z)) else None) else None
+  | EUnary op (EFloat r) =>
+    if negb (starts_with (K"-") r) then (if str_eqb op (K"-") then Some (Some (DFloat ("-"%char :: r)))
+                                         else if str_eqb op (K"+") then Some (Some (DFloat r)) else None) else None
+  | _ => plain_literal e
+  end.
+
+Theorem default_of_literal fid e v : signed_literal e = Some v ->
+  default_of fid e = (v, match v with None => true | Some _ => false end, []).
+Proof.
+  destruct e as [n f nd|n f nd|z|r|s|items|op x| |a b|c items|c nm]; cbn [signed_literal plain_literal]; try discriminate.
+  - cbn [default_of]. destruct (str_eqb n (K"None")); [intro H; inversion H; reflexivity|].
+    destruct (str_eqb n (K"True")); [intro H; inversion H; reflexivity|].
+    destruct (str_eqb n (K"False")); [intro H; inversion H; reflexivity|discriminate].
+  - intro H; inversion H; reflexivity.
+  - intro H; inversion H; reflexivity.
+  - intro H; inversion H; reflexivity.
+  - destruct x as [n f nd|n f nd|z|r|s|items|op' x'| |a b|c items|c nm]; cbn [plain_literal]; try discriminate.
+    + cbn [default_of]. unfold unary_int.
+      destruct (0 <=? z)%Z eqn:Z0; [|discriminate]. assert ((z <? 0)%Z = false) as -> by lia.
+      destruct (str_eqb op (K"-")); [intro H; inversion H; reflexivity|].
+      destruct (str_eqb op (K"+")); [intro H; inversion H; reflexivity|discriminate].
+    + cbn [default_of]. unfold unary_float. destruct (starts_with (K"-") r); cbn [negb]; [discriminate|].
+      destruct (str_eqb op (K"-")); [intro H; inversion H; reflexivity|].
+      destruct (str_eqb op (K"+")); [intro H; inversion H; reflexivity|discriminate].
+Qed.
+
+Theorem parse_parameter_shape env d st f fid a p tv lg amb :
+  parse_parameter env d st f fid a = Ok (p, tv, lg, amb) ->
+  p_name p = ar_name a /\ p_id p = fid ++ K"/" ++ ar_name a /\
+  p_assigned p = spec_kind (ar_is_self a || ar_is_cls a) (ar_pos_only a) (ar_kind a) /\
+  (p_optional p = true <-> exists e, ar_init a = Some e /\ (fst (fst (default_of fid e)) <> None \/ snd (fst (default_of fid e)) = true)) /\
+  (forall e v, ar_init a = Some e -> signed_literal e = Some v -> p_default p = dval_of_pyval v).
+Proof.
+  unfold parse_parameter. destruct (ar_vtype a) as [vt|]; [|discriminate].
+  match goal with |- (do at_ <- ?X; _) = _ -> _ => destruct X as [[at0 amb0]|]; cbn [bind]; [|discriminate] end.
+  destruct (ar_init a) as [e|] eqn:EI.
+  - destruct (default_of fid e) as [[v isnone] lg0] eqn:ED.
+    rewrite kind_table. cbn [bind].
+    match goal with |- (do dv <- ?X; _) = _ -> _ => destruct X as [[[[v1 n1] l1] t1]|] eqn:EX; cbn [bind]; [|discriminate] end.
+    assert (v1 = v /\ n1 = isnone) as [-> ->].
+    { destruct at0; [inversion EX; auto|]. destruct (isnone || match v with Some _ => true | None => false end); [|inversion EX; auto].
+      destruct (expr_type e); cbn [bind] in EX; [inversion EX; auto|discriminate]. }
+    match goal with |- (do pd <- ?X; _) = _ -> _ => destruct X as [pd|]; cbn [bind]; [|discriminate] end.
+    intro H. inversion H; subst. cbn. repeat split; try reflexivity.
+    + intro O. exists e. split; [reflexivity|]. rewrite ED. cbn. destruct v as [dv|]; [left; discriminate|right; exact O].
+    + intros [e' [E1 E2]]. inversion E1; subst e'. rewrite ED in E2. cbn in E2. destruct E2 as [E2|E2].
+      * destruct v; [reflexivity|congruence].
+      * rewrite E2. apply orb_true_r.
+    + intros e' v' E1 SL. inversion E1; subst e'. rewrite (default_of_literal fid e v' SL) in ED. inversion ED; subst. reflexivity.
+  - rewrite kind_table. cbn [bind].
+    match goal with |- (do pd <- ?X; _) = _ -> _ => destruct X as [pd|]; cbn [bind]; [|discriminate] end.
+    intro H. inversion H; subst. cbn. repeat split; try reflexivity.
+    + discriminate.
+    + intros [e' [E1 _]]; discriminate.
+    + intros; discriminate.
+Qed.
+
+(* ======================================================================================================== *)
+(* C04: the publicity flag                                                                                    *)
+(* ======================================================================================================== *)
+(* without a re-export that covers it, a name with a leading underscore that is not a dunder name is private *)
+Theorem private_name_not_public st name qname parent rest :
+  vs_stack st = parent :: rest ->
+  check_publicity_in_reexports st name qname parent = false ->
+  is_internal name = true -> ends_with (K"__") name = false ->
+  forall b, is_public st name qname = Ok b -> b = false.
+Proof.
+  intros S R I D b. unfold is_public. rewrite S.
+  destruct parent; cbv beta iota zeta; cbn [negb]; try discriminate.
+  - rewrite R, I, D. cbn [negb andb]. intro H; inversion H; reflexivity.
+  - rewrite R, I, D. cbn [negb andb]. intro H; inversion H; reflexivity.
+  - destruct (str_eqb (f_name f) (K"__init__")); cbn [negb]; [|discriminate]. rewrite I, D. cbn [negb andb]. intro H; inversion H; reflexivity.
+Qed.
+
+(* a member of a class that is not public is not public (unless a re-export names it) *)
+Theorem member_of_private_class_not_public st name qname c rest :
+  vs_stack st = FClass c :: rest -> c_public c = false ->
+  check_publicity_in_reexports st name qname (FClass c) = false ->
+  (str_eqb name (K"__init__") = true \/ is_internal name = false) ->
+  forall b, is_public st name qname = Ok b -> b = false.
+Proof.
+  intros S P R N b. unfold is_public. rewrite S. cbv beta iota zeta. cbn [negb]. rewrite R.
+  destruct (is_internal name && negb (ends_with (K"__") name)); [intro H; inversion H; reflexivity|].
+  destruct N as [N|N]; rewrite N; cbn [negb orb]; [|rewrite orb_true_r]; intro H; inversion H; congruence.
+Qed.
+
+(* a public name at module level is public exactly when no segment of its module path is private (re-exports aside) *)
+Theorem module_level_publicity st name qname m rest :
+  vs_stack st = FModule m :: rest -> is_internal name = false ->
+  check_publicity_in_reexports st name qname (FModule m) = false ->
+  is_public st name qname = Ok (forallb (fun it => negb (is_internal it)) (removelast (split_dot qname))).
+Proof. intros S I R. unfold is_public. rewrite S. cbv beta iota zeta. cbn [negb]. rewrite R, I. reflexivity. Qed.
+
+(* and a re-export can only make a declaration public, never private *)
+Theorem reexport_only_publishes st name qname parent rest :
+  vs_stack st = parent :: rest -> check_publicity_in_reexports st name qname parent = true ->
+  match parent with FModule _ | FClass _ => is_public st name qname = Ok true | _ => True end.
+Proof. intros S R. destruct parent; try exact I; unfold is_public; rewrite S; cbv beta iota zeta; cbn [negb]; rewrite R; reflexivity. Qed.
+
+(* ======================================================================================================== *)
+(* C07: results of an annotated function                                                                      *)
+(* ======================================================================================================== *)
+Arguments gen_name : simpl never.
+Arguments pick_name : simpl never.
+Lemma zip_results_types fid ts : forall ds k, List.length ts = List.length ds -> map r_type (zip_results fid ts ds k) = map Some ts.
+Proof.
+  induction ts as [|t tr IH]; intros [|d dr] k L; cbn [List.length zip_results map] in *; try discriminate; [reflexivity|].
+  destruct (pick_name (Some d) k) as [nm k']. cbn [map r_type mk_result]. f_equal. apply IH. lia.
+Qed.
+Lemma match_results_types fid ds ts : forall k, map r_type (match_results fid ts ds k) = map Some ts.
+Proof. induction ts as [|t tr IH]; intro k; cbn [match_results map]; [reflexivity|]. destruct (pick_name _ k) as [nm k']. cbn [map r_type mk_result]. f_equal. apply IH. Qed.
+Lemma zip_results_ids fid ts : forall ds k, Forall (fun r => r_id r = fid ++ K"/" ++ r_name r) (zip_results fid ts ds k).
+Proof.
+  induction ts as [|t tr IH]; intros [|d dr] k; cbn [zip_results]; try constructor.
+  destruct (pick_name (Some d) k) as [nm k']. constructor; [reflexivity|apply IH].
+Qed.
+Lemma match_results_ids fid ds ts : forall k, Forall (fun r => r_id r = fid ++ K"/" ++ r_name r) (match_results fid ts ds k).
+Proof. induction ts as [|t tr IH]; intro k; cbn [match_results]; [constructor|]. destruct (pick_name _ k) as [nm k']. constructor; [reflexivity|apply IH]. Qed.
+
+Definition annotated (f : fdef) : option (mtype * option mtype) :=
+  match fn_type f with
+  | Some (FRet rt u) =>
+    match rt with
+    | MAny toa _ => if uret_allows_inference u && negb (any_ok toa) then None else Some (rt, u)
+    | _ => Some (rt, u)
+    end
+  | _ => None
+  end.
+
+(* "-> None": one result of type None (the generator then writes no result at all: Properties/C07.v);
+   an annotated tuple: one result per element, in order; anything else: exactly one result carrying the translated type *)
+Theorem annotated_results env f fid rdocs rt u rs amb :
+  str_eqb (fn_name f) (K"__init__") = false -> annotated f = Some (rt, u) ->
+  parse_results env f fid rdocs = Ok (rs, amb) ->
+  exists t a, (match rt with MNone => Ok (none_named, false) | _ => mt2 env rt u end) = Ok (t, a) /\
+              map r_type rs = map Some (match t with TTuple ts => ts | _ => [t] end) /\
+              Forall (fun r => r_id r = fid ++ K"/" ++ r_name r) rs.
+Proof.
+  intros NI A. unfold parse_results. rewrite NI. unfold annotated in A.
+  destruct (fn_type f) as [[|rt0 u0]|]; try discriminate.
+  assert (forall (X : res (ty * bool)),
+    (do ri <- (do t <- X; Ok (Some (fst t), false, snd t));
+     let '(ret, inferred, amb0) := ri in
+     match ret with
+     | None => Ok ([], amb0)
+     | Some rt1 =>
+       match inferred, rt1 with
+       | true, TTuple ts => do rs0 <- create_inferred_results fid ts rdocs; Ok (rs0, amb0)
+       | _, _ => let rets := match rt1 with TTuple ts => ts | _ => [rt1] end in
+                 if Nat.eqb (List.length rets) (List.length rdocs) then Ok (zip_results fid rets rdocs 0, amb0)
+                 else Ok (match_results fid rets rdocs 0, amb0)
+       end
+     end) = Ok (rs, amb) ->
+    exists t a, X = Ok (t, a) /\ map r_type rs = map Some (match t with TTuple ts => ts | _ => [t] end) /\
+                Forall (fun r => r_id r = fid ++ K"/" ++ r_name r) rs) as GEN.
+  { intros [[t a]|e]; cbn [bind fst snd]; [|discriminate]. intro H. exists t, a. split; [reflexivity|].
+    destruct (Nat.eqb _ _) eqn:EL; inversion H; subst.
+    - split; [apply zip_results_types; apply Nat.eqb_eq; exact EL|apply zip_results_ids].
+    - split; [apply match_results_types|apply match_results_ids]. }
+  destruct rt0; try (inversion A; subst; apply GEN).
+  - (* Any *) destruct (uret_allows_inference u0 && negb (any_ok toa)); [discriminate|]. inversion A; subst. apply GEN.
+  - (* None *) inversion A; subst. apply (GEN (Ok (none_named, false))).
+Qed.
